@@ -467,7 +467,7 @@ func escapeAll(p string) string {
 	return sb.String()
 }
 
-var transportVariantNames = []string{"raw-path-escaped", "http2", "http10", "irrelevant-headers", "host-with-port", "lowercase-header-keys", "request-uri-absolute"}
+var transportVariantNames = []string{"raw-path-escaped", "http2", "http10", "irrelevant-headers", "host-with-port", "lowercase-header-keys", "request-uri-absolute", "h2c-upgrade-offer", "upgrade-to-unknown-protocol", "connection-upgrade-without-upgrade-header"}
 
 // transportVariants re-sends a request in spellings that carry the same verb
 // and the same decoded path: the routing outcome must be the same.
@@ -494,6 +494,16 @@ func transportVariants(r *mon.Run, c *Case, b *Built, rq Req, o0 Outcome, k int)
 			req.Header["accept"] = []string{"application/json"}
 		case "request-uri-absolute":
 			req.RequestURI = "http://verif.test" + req.URL.Path
+		case "h2c-upgrade-offer":
+			// what curl --http2 / nghttp -u send with their first request
+			req.Header["Connection"] = []string{"Upgrade, HTTP2-Settings"}
+			req.Header["Upgrade"] = []string{"h2c"}
+			req.Header["Http2-Settings"] = []string{"AAMAAABkAARAAAAAAAIAAAAA"}
+		case "upgrade-to-unknown-protocol":
+			req.Header["Connection"] = []string{"upgrade"}
+			req.Header["Upgrade"] = []string{"TLS/1.0, IRC/6.9"}
+		case "connection-upgrade-without-upgrade-header":
+			req.Header["Connection"] = []string{"keep-alive, Upgrade"}
 		}
 	}
 	o := b.DoWith(rq.Verb, rq.Path, "", nil, mod)
